@@ -4,6 +4,7 @@ import (
 	"encoding/hex"
 	"encoding/json"
 	"fmt"
+	"strings"
 	"sync"
 
 	cstate "0chain.net/chaincore/chain/state"
@@ -42,6 +43,18 @@ type scen struct {
 	allocOwner map[string]string // tag -> owner actor name
 	types      map[string]string // trie path -> Go type of the node last inserted there
 	views      []*sview          // small cache of decoded states
+
+	freeMarkers map[string]string // free_allocation_request action name -> "<assigner id>:<nonce>"
+	paths       map[string]*pinfo // per explored path: what the path itself shows (see track)
+}
+
+// pinfo is what a path (root + action list) shows without consulting the contract's own records:
+// the storage owner wallet's balance at its end and the (assigner, nonce) pairs of the
+// free-storage markers that were accepted along it (accepted = the owner wallet was debited by
+// that step).
+type pinfo struct {
+	ownerBal uint64
+	redeemed map[string]bool
 }
 
 // blobber parameters: capacity / stake are tight for b0 so that capacity and staked-capacity
@@ -52,7 +65,8 @@ var blobberRead = []currency.Coin{1e9, 3e9 + 1, 1e9, 2e9}
 var validatorStake = []currency.Coin{1e10, 1e9} // v1 is below min_stake_per_delegate: its rewards are dropped
 
 func newScen(readPoolFraction float64) *scen {
-	s := &scen{allocID: map[string]string{}, allocOwner: map[string]string{}, types: map[string]string{}}
+	s := &scen{allocID: map[string]string{}, allocOwner: map[string]string{}, types: map[string]string{},
+		freeMarkers: map[string]string{}, paths: map[string]*pinfo{}}
 	extra := map[string]currency.Coin{}
 	for i := 0; i < 4; i++ {
 		a := world.DetKey(fmt.Sprintf("b%d", i))
@@ -590,7 +604,103 @@ func (s *scen) freeAlloc(from, recipient string, ai int, tokens float64, nonce i
 	}
 	marker, _ := json.Marshal(map[string]any{"assigner": a.ID, "recipient": rc.ID, "free_tokens": tokens, "nonce": nonce, "signature": sig, "blobbers": ids})
 	in := map[string]any{"recipient_public_key": s.actor(from).PublicKey, "marker": string(marker), "blobbers": ids}
+	s.freeMarkers[name+")"] = fmt.Sprintf("%s:%d", a.ID, nonce)
 	return s.scCall(name+")", from, "free_allocation_request", 0, nil, fee, static(in))
+}
+
+// track records, for the state an action is about to be applied to, what its path shows (see
+// pinfo). Every worker calls Build for every transition it executes, parents before children, so
+// the parent's record always exists when a child is first seen.
+func (s *scen) track(x *chainsim.Ctx) {
+	path := x.N.Path
+	key := strings.Join(path, "\x00")
+	s.mu.Lock()
+	defer s.mu.Unlock()
+	if _, ok := s.paths[key]; ok {
+		return
+	}
+	bal := uint64(x.Bal(s.O.ID))
+	info := &pinfo{ownerBal: bal, redeemed: map[string]bool{}}
+	if len(path) > 1 {
+		parent, ok := s.paths[strings.Join(path[:len(path)-1], "\x00")]
+		if !ok {
+			panic("track: no record for the parent of " + strings.Join(path, " "))
+		}
+		for k := range parent.redeemed {
+			info.redeemed[k] = true
+		}
+		if mk, ok := s.freeMarkers[path[len(path)-1]]; ok && bal < parent.ownerBal {
+			info.redeemed[mk] = true
+		}
+	}
+	s.paths[key] = info
+}
+
+func (s *scen) pathInfo(path []string) *pinfo {
+	s.mu.Lock()
+	defer s.mu.Unlock()
+	return s.paths[strings.Join(path, "\x00")]
+}
+
+// tracked wraps the actions so that every state they are applied to is recorded by track.
+func (s *scen) tracked(acts []chainsim.Action) []chainsim.Action {
+	out := make([]chainsim.Action, len(acts))
+	for i, a := range acts {
+		a := a
+		b := a
+		b.Build = func(x *chainsim.Ctx) *world.TxnSpec {
+			s.track(x)
+			return a.Build(x)
+		}
+		out[i] = b
+	}
+	return out
+}
+
+// readReuse: blobber bi redeems a FORGED marker for (client, allocation ref): it carries the
+// signature of a previously redeemed marker and a counter raised by delta. from: "" = the marker
+// last redeemed at this very blobber (same timestamp), "ts" = same but with the current
+// timestamp, "bN" = the marker last redeemed at blobber N for the same client and allocation.
+func (s *scen) readReuse(ref string, bi int, client string, delta int64, from string) chainsim.Action {
+	b := s.B[bi]
+	name := fmt.Sprintf("read_redeem(%s,%s,%s,ctr=last+%d,reused-signature", ref, b.Name, client, delta)
+	if from != "" {
+		name += ":" + from
+	}
+	return s.scCall(name+")", b.Name, "read_redeem", 0, nil, 2, func(x *chainsim.Ctx) (any, bool) {
+		id, ok := s.allocRef(x, ref)
+		if !ok {
+			return nil, false
+		}
+		c := s.actor(client)
+		v := s.view(x.N)
+		find := func(blobberID string) *storagesc.ReadMarker {
+			key := storagesc.VerifReadConnectionKey(blobberID, c.ID, id)
+			for p, m := range v.readConns {
+				if world.Tap.KeyOf(p) == key {
+					return m
+				}
+			}
+			return nil
+		}
+		last := find(b.ID)
+		if last == nil {
+			return nil, false
+		}
+		src := last
+		if len(from) == 2 && from[0] == 'b' {
+			src = find(s.B[int(from[1]-'0')].ID)
+			if src == nil {
+				return nil, false
+			}
+		}
+		rm := &storagesc.ReadMarker{ClientID: c.ID, ClientPublicKey: c.PublicKey, BlobberID: b.ID, AllocationID: id, OwnerID: last.OwnerID,
+			Timestamp: last.Timestamp, ReadCounter: last.ReadCounter + delta, Signature: src.Signature}
+		if from == "ts" {
+			rm.Timestamp = x.Now
+		}
+		return &storagesc.ReadConnection{ReadMarker: rm}, true
+	})
 }
 
 // ---------------------------------------------------------------------------------------------
@@ -622,6 +732,12 @@ func (s *scen) rootA() []chainsim.Action {
 // rootAW: rootA + data written to b0 (600 MiB) and b1 (300 MiB).
 func (s *scen) rootAW() []chainsim.Action {
 	return append(s.rootA(), s.commit("A", 0, 600<<20, "", 0), s.commit("A", 1, 300<<20, "", 0))
+}
+
+// rootAWP: rootAW + every blobber that holds data (b0, b1) lowers its write price to a quarter:
+// an extension from here moves tokens OUT of the challenge pool for every data-holding blobber.
+func (s *scen) rootAWP() []chainsim.Action {
+	return append(s.rootAW(), s.updateBlobber("b0", ZCN/4, 0), s.updateBlobber("b1", ZCN/4, 0))
 }
 
 // tinyCost is the price of allocation T: 3 blobbers x one 64 KiB chunk at 1 ZCN/GiB for one time
